@@ -322,10 +322,13 @@ class State:
                 # Merge vectorized scan states into collected state, under the
                 # namespaces enclosing the scan.
                 # scan_states is already vectorized by scan - just merge it
-                _nested_dict_merge(
-                    _nested_dict_get(self.collected_state, tuple(self.namespace_stack)),
-                    scan_states,
-                )
+                if scan_states:
+                    _nested_dict_merge(
+                        _nested_dict_get(
+                            self.collected_state, tuple(self.namespace_stack)
+                        ),
+                        scan_states,
+                    )
 
                 outvals = jtu.tree_leaves(
                     (flat_carry_out, scanned_out),
